@@ -227,7 +227,7 @@ func (r *Run) streamMarks(rule string) {
 	}
 	// a prefetch outside a stream takes nothing out of the mempool
 	if ps := r.fn(w, rule, MP+"PrepareStream"); ps != nil {
-		es := findEffects(ps, "call (*internal/mempool.Mempool).streamItems(p0, p2)")
+		es := findEffects(ps, "call (*internal/mempool.Mempool).streamItems(p0, p2*")
 		r.check(len(es) == 1 && (hasStr(es[0].Conds(), "nil != p0.streamedItems") || hasStr(es[0].Conds(), "p0.streamedItems != nil")), rule, "PrepareStream:only-during-a-stream", w.rel(ps.Pos()), "", "PrepareStream pops items although no stream is active: they are neither held nor handed out and cannot be re-added")
 	}
 	// front insertion keeps the order of the restored block
